@@ -16,7 +16,11 @@ func c11IfChain(fn *ast.FuncDecl) (conds []string, rets []string) {
 	if fn == nil {
 		return []string{"MISSING"}, []string{"MISSING"}
 	}
-	for _, st := range fn.Body.List {
+	return c11IfChainBlock(fn.Body.List)
+}
+
+func c11IfChainBlock(list []ast.Stmt) (conds []string, rets []string) {
+	for _, st := range list {
 		switch x := st.(type) {
 		case *ast.IfStmt:
 			c := c11Call(x.Cond)
@@ -53,6 +57,28 @@ func c11IfChain(fn *ast.FuncDecl) (conds []string, rets []string) {
 				r = append(r, c11Call(e))
 			}
 			conds = append(conds, "return "+strings.Join(r, ","))
+		case *ast.RangeStmt:
+			conds = append(conds, "range "+c11Call(x.X)+" {")
+			c, r := c11IfChainBlock(x.Body.List)
+			conds = append(append(conds, c...), "}")
+			rets = append(rets, r...)
+		case *ast.SwitchStmt:
+			conds = append(conds, "switch "+c11Call(x.Tag)+" {")
+			for _, cc := range x.Body.List {
+				if cl, ok := cc.(*ast.CaseClause); ok {
+					var vs []string
+					for _, e := range cl.List {
+						vs = append(vs, c11Call(e))
+					}
+					conds = append(conds, "case "+strings.Join(vs, ",")+":")
+					c, r := c11IfChainBlock(cl.Body)
+					conds = append(conds, c...)
+					rets = append(rets, r...)
+				}
+			}
+			conds = append(conds, "}")
+		case *ast.DeclStmt:
+			conds = append(conds, "decl")
 		default:
 			conds = append(conds, "stmt:"+exprStringStmt(st))
 		}
@@ -82,6 +108,13 @@ func extractC11Wire(l *lean, issF, verF *ast.File) {
 	conds, rets := c11IfChain(c11Method(typF, "StatusList2021Entry", "Validate"))
 	l.def("entryValidateChain", "List String", leanStrList(conds), conds)
 	l.def("entryValidateReturns", "List String", leanStrList(rets), rets)
+
+	// vcr/credential/validator.go: the default validator's check chain and the credentialStatus loop
+	_, valF := parseFile("vcr/credential/validator.go")
+	dconds, _ := c11IfChain(c11Method(valF, "defaultCredentialValidator", "Validate"))
+	l.def("defaultValidatorChain", "List String", leanStrList(dconds), dconds)
+	sconds, _ := c11IfChain(c11Method(valF, "", "validateCredentialStatus"))
+	l.def("validateCredentialStatusChain", "List String", leanStrList(sconds), sconds)
 
 	// the literal returned by Entry(): field:value pairs in source order
 	var lit []string
